@@ -26,11 +26,39 @@ What it is compared with (all written here, nothing of the repository is used fo
     string value must come earlier; EvaluationError iff the mention graph among the sortable fields has a
     cycle (a field mentioning itself is not an edge: it refers to the outer scope's name).
 
+Additions (strengthening round)
+  (a) EDIT HISTORIES on one Spec object: build, evaluate, edit definitions IN PLACE (attribute / item assignment and
+      deletion on spec.variables, arch.variables, arch.extra_attributes_for_all_component_models, component extra
+      attributes and declared fields, action fields and extra attributes, the spatial fanout: change a value, add a
+      definition (also one that shadows / is shadowed), remove one (also one that uncovers an outer definition; a
+      declared field goes back to its default), introduce a dependency cycle and take it back), evaluate again
+      with _spec_eval_expressions / calculate_component_costs, for different Einsums of a workload in between (the
+      arch-level expressions then use len(All) / len(Inputs) / len(Outputs) / len(Tensors), whose value depends on
+      the Einsum the evaluation is done for; no Einsum: empty sets for _spec_eval_expressions, the first Einsum for
+      calculate_component_costs, as documented); the history may continue on copy.deepcopy / model_copy(deep=True)
+      of the Spec or on the evaluated Spec.  After EVERY edit the required values are recomputed from scratch from
+      the current definitions by reference(); EvaluationError iff the current definitions have a cycle; an earlier
+      result must still show the values it was given.  arch.extra_attributes_for_all_component_models ("G") is a
+      scope of its own in these cases: evaluated after the arch variables, inherited by every component's extra
+      attributes that do not define the name themselves.
+  (b) names the expression evaluator pre-binds (accelforge/util/_eval_expressions.py MATH_FUNCS: ceil ... map, the
+      constants pi e tau inf nan, and a custom function registered through Config.expression_custom_functions) as
+      names of USER definitions, used by compound expressions and by bare mentions in the same object and in every
+      inner / sibling object: the user's definition must win wherever it is visible; where it is not visible
+      (an outer or sibling object) min / max / abs / the custom function are still called as functions.
+
 Not in the family (stated, not silently dropped): a definition that mentions its OWN name while an enclosing
 object also defines that name (the repository reads the outer value on purpose: its own default
-bits_per_action is written that way); component extra attributes that mention a declared field of their
-component (the extra attributes are evaluated BEFORE the fields, so such a mention reads the outer name);
-names of mathematical built-ins (e, pi, min, ...) as variable names.
+bits_per_action is written that way) - this includes a pre-bound name mentioned by its own definition with no
+user definition outside (e: 'e + 1' reads the evaluator's e); component extra attributes that mention a declared
+field of their component (the extra attributes are evaluated BEFORE the fields, so such a mention reads the outer
+name); in-place edits of names starting with "_" (pydantic stores such an attribute as a plain instance
+attribute, it never becomes a definition) and such names among the arch-level extra attributes (the repository
+hands them to the components with setattr, so they are not inherited); on an EVALUATED Spec: calculate_component_costs
+after an edit (it does not evaluate an evaluated Spec) and edits of the arch-level extra attributes (an evaluated
+component does not inherit again); definitions that leave a used name undefined.
+
+Known class C21-arch-extras-cached: see CLASSES / WITNESS.
 """
 import itertools, random
 
@@ -1232,6 +1260,9 @@ def run_history(rnd, known, case, nsteps, plan=None, allow_switch=True):
 
 def _simple_case(tier_defs, asts, mode="eval", **kw):
     comps = [dict(c) for c in COMPS2]
+    for c in comps:
+        if c["name"] in kw.get("spatial", ()):
+            c["spatial"] = True
     g = bool(kw.get("g"))
     case = {"tiers": _skeleton(comps, g), "comps": comps, "order": _tier_ids(comps, g), "_ast": {}, "wrap": False,
             "bigint": False, "mode": mode}
@@ -1409,6 +1440,7 @@ def _chain_base(g=False):
         ("Mem.read.Y", "z"): _B("+", _R("energy"), _R("w")),
         ("MAC.X", "m"): _B("+", _R("y"), _R("a")),
         ("MAC.F", "area"): _B("*", _R("m"), _L(2)), ("MAC.F", "leak_power"): _L(1),
+        ("MAC.sp.P", "fanout"): _B("+", _R("m"), _R("b")),
     }
     if g:
         asts[("G", "t")] = _B("+", _R("x"), _R("a"))
@@ -1426,7 +1458,7 @@ CHAIN_EDITS = [
     [("Mem.F", "area", _B("*", _R("w"), _L(3)))], [("Mem.F", "area_scale", _L(2))], [("Mem.F", "energy_scale", _R("w"))],
     [("Mem.read.T", "energy", _B("+", _R("x"), _L(1)))], [("Mem.read.T", "energy_scale", _L(3))],
     [("Mem.read.Y", "z", _B("*", _R("w"), _L(2)))], [("Mem.read.Y", "w", _L(9))],
-    [("MAC.X", "m", _B("+", _R("a"), _R("a")))], [("MAC.X", "y", _L(1))],
+    [("MAC.X", "m", _B("+", _R("a"), _R("a")))], [("MAC.X", "y", _L(1))], [("MAC.sp.P", "fanout", _B("*", _R("y"), _L(2)))],
     # dependency cycles (toggled like every other edit: applied again they are taken back)
     [("S", "a", _R("b"))],
     [("A", "y", _B("+", _R("x"), _L(1))), ("A", "x", _R("y"))],
@@ -1466,7 +1498,7 @@ def core_history_plans(thorough, g=False):
     for i, e in enumerate(edits):
         for c0, c1 in CALL_PATTERNS:
             base = _chain_base(g)
-            case = _case_from_asts(base, wl=CORE_WL, positive=True, g=g)
+            case = _case_from_asts(base, wl=CORE_WL, positive=True, g=g, spatial=["MAC"])
             yield case, [(None, c0), (_toggle(base, e), c1)]
     calls3 = ["eval", "eval@T0", "costs", "eval@T1", "costs@T1"]
     for i, e1 in enumerate(edits):
@@ -1474,7 +1506,7 @@ def core_history_plans(thorough, g=False):
             if not thorough and (i * 7 + j) % 4:
                 continue
             base = _chain_base(g)
-            case = _case_from_asts(base, wl=CORE_WL, positive=True, g=g)
+            case = _case_from_asts(base, wl=CORE_WL, positive=True, g=g, spatial=["MAC"])
             yield case, [(None, calls3[(i + j) % 5]), (_toggle(base, e1), calls3[(i + 2 * j + 1) % 5]),
                          (_toggle(base, e2), calls3[(2 * i + j + 2) % 5])]
 
@@ -1486,7 +1518,7 @@ def core_prebound_cases(levels, every_costs=3):
     """Each pre-bound name as a user definition (4 names at a time; one of the four defined by an expression over
     another, written first) in each kind of object, with the same names defined differently at the spec level, used
     by compound expressions and by bare mentions in the same object and in every object inside / beside it."""
-    names = prebound_names()
+    names = prebound_names() + ["cf"]  # cf: the custom function registered through the Spec's config
     idx = 0
     for lv in levels:
         for c in range(0, len(names), 4):
@@ -1510,7 +1542,8 @@ def core_prebound_cases(levels, every_costs=3):
                         asts[(tid, f"p{j}")] = _B("+", _B("*", _R(n), _L(2)), _L(1))
                     asts[(tid, "r")] = _R(ch[(c // 4) % 4])
             idx += 1
-            yield _case_from_asts(asts, mode="costs" if idx % every_costs == 0 else "eval", g=(lv == "G"), pre=list(ch))
+            kw = {"cf": True} if "cf" in ch else {}
+            yield _case_from_asts(asts, mode="costs" if idx % every_costs == 0 else "eval", g=(lv == "G"), pre=list(ch), **kw)
 
 
 def core_prebound_cycle_cases():
@@ -1718,9 +1751,33 @@ def _sweep(seed, tier, known):
     thorough = tier == "thorough"
     n_rand_spec = 20000 if thorough else 900
     n_rand_order = 100000 if thorough else 3000
+    n_rand_pre = 6000 if thorough else 250
+    n_hist, n_hist_g = (3000, 1500) if thorough else (110, 50)
     ev = hits = 0
     seen, samples = set(), []
-    stats = {"spec_cases": 0, "spec_cyclic": 0, "spec_acyclic": 0, "order_calls": 0, "core_spec": 0, "core_order": 0}
+    stats = {"spec_cases": 0, "spec_cyclic": 0, "spec_acyclic": 0, "order_calls": 0, "core_spec": 0, "core_order": 0,
+             "prebound_cases": 0, "histories": 0, "history_evaluations": 0, "core_histories": 0}
+
+    def run_hist(case, nsteps, plan=None):
+        nonlocal ev, hits
+        n, h, bad, hist = run_history(rnd, known, case, nsteps, plan=plan)
+        ev += n
+        hits += h
+        stats["histories"] += 1
+        stats["history_evaluations"] += n
+        seen.add(repr(hist))
+        return bad, hist
+
+    def rand_hist(g):
+        wl = gen_wl(rnd) if rnd.random() < 0.5 else None
+        pre = ()
+        if rnd.random() < 0.4:
+            pre = tuple(rnd.sample([n for n in prebound_names() if not (wl and n == "len")], rnd.randint(2, 6)))
+        cf_ = rnd.random() < 0.2
+        if cf_ and rnd.random() < 0.5:
+            pre = pre + ("cf",)  # the name of the registered custom function as a user definition
+        case = gen_case(rnd, size="normal" if rnd.random() < 0.8 else "large", positive=True, pre=pre, wl=wl, cf=cf_, g=g)
+        return run_hist(case, rnd.randint(3, 6))
 
     def run_spec(case):
         nonlocal ev, hits
@@ -1755,6 +1812,19 @@ def _sweep(seed, tier, known):
         bad = run_order(order, fields)
         if bad:
             return ev, len(seen), hits, bad, stats, samples
+    # the additions: pre-bound names as user definitions (enumerated), edit histories (enumerated)
+    for g in (core_prebound_cases(["S", "A", "G", "Mem.X", "Mem.read.Y"]), core_prebound_cycle_cases()):
+        for case in g:
+            stats["core_spec"] += 1
+            stats["prebound_cases"] += 1
+            bad = run_spec(case)
+            if bad:
+                return ev, len(seen), hits, bad, stats, samples
+    for case, plan in core_history_plans(thorough):
+        stats["core_histories"] += 1
+        bad, _ = run_hist(case, 0, plan)
+        if bad:
+            return ev, len(seen), hits, bad, stats, samples
     # seeded random part
     for i in range(n_rand_spec):
         mode = rnd.choice(["eval", "eval", "eval", "twice", "reeval", "costs"])
@@ -1767,6 +1837,29 @@ def _sweep(seed, tier, known):
             return ev, len(seen), hits, bad, stats, samples
         if len(samples) < 6 and i % 37 == 5:
             samples.append(_describe(case))
+    for i in range(n_rand_pre):
+        mode = rnd.choice(["eval", "eval", "eval", "twice", "reeval", "costs"])
+        pre = tuple(rnd.sample(prebound_names(), rnd.randint(2, 6)))
+        cf_ = rnd.random() < 0.2
+        if cf_ and rnd.random() < 0.5:
+            pre = pre + ("cf",)
+        case = gen_case(rnd, size="normal" if rnd.random() < 0.8 else "large", positive=(mode == "costs"), pre=pre,
+                        cf=cf_, g=rnd.random() < 0.3)
+        case["mode"] = mode
+        if rnd.random() < 0.35:
+            inject_cycle(rnd, case)
+        stats["prebound_cases"] += 1
+        bad = run_spec(case)
+        if bad:
+            return ev, len(seen), hits, bad, stats, samples
+        if i == 3:
+            samples.append("pre-bound names: " + _describe(case))
+    for i in range(n_hist):
+        bad, hist = rand_hist(False)
+        if bad:
+            return ev, len(seen), hits, bad, stats, samples
+        if i == 2:
+            samples.append(_describe_hist(hist))
     for i in range(n_rand_order):
         order, fields = rand_order_case(rnd)
         bad = run_order(order, fields)
@@ -1780,14 +1873,38 @@ def _sweep(seed, tier, known):
         bad = run_spec(case)
         if bad:
             return ev, len(seen), hits, bad, stats, samples
+    # histories with arch-level extra attributes (after everything else: the known class C21-arch-extras-cached lives here)
+    for case, plan in core_history_plans(thorough, g=True):
+        stats["core_histories"] += 1
+        bad, _ = run_hist(case, 0, plan)
+        if bad:
+            return ev, len(seen), hits, bad, stats, samples
+    for i in range(n_hist_g):
+        bad, hist = rand_hist(True)
+        if bad:
+            return ev, len(seen), hits, bad, stats, samples
     return ev, len(seen), hits, None, stats, samples
 
 
+def _describe_hist(hist):
+    parts = []
+    for k, st in enumerate(hist["steps"]):
+        e = ", ".join((f"del {x['tier']}:{x['name']}" if x["op"] == "del" else f"{x['tier']}:{x['name']}={x['raw']!r}") for x in st["edits"])
+        parts.append((f"[on {st['continue_on']}] " if st.get("continue_on") else "") + (e + " -> " if e else "") + st["call"])
+    return ("history: " + " | ".join(parts))[:300]
+
+
+BOUND_ADD = ("; edit histories: <= 6 evaluations of one Spec object (<= 14 + 13 definitions, 7 kinds of objects incl. arch-level extra attributes, "
+             "<= 3 Einsums) with <= 3 edits (set / add / delete / cycle / undo) between two evaluations, enumerated: every one of 25 "
+             "elementary edits of a 7-object definition chain under 5 call patterns and ordered pairs of them (all 625 in the thorough "
+             "tier, one in four otherwise), 8 edits around the arch-level extra attributes likewise; pre-bound names: each of the "
+             "76 names (75 of MATH_FUNCS + a custom function) in each of 5 kinds of objects (4 names per Spec), 36 cycles among them, "
+             "and 2-7 of them mixed into random Specs")
 BOUND = ("<= 14 optional definitions plus the 11-13 mandatory fields (area / leak_power / size / energy / throughput / spatial fanout; <= ~20 "
          "of all these are expressions, the rest integer literals) per Spec, spread over spec variables, arch variables, the extra attributes "
          "and declared fields of a Memory (sometimes inside a nested Hierarchical) and a Compute, the fields and extra attributes of their "
          "actions and the fanout of their spatial entry (6 nesting levels); integer arithmetic (+ - * // % ** unary-minus min max abs), literals |n| <= 10**6, values "
-         "|v| <= 10**12; field-order function: <= 12 fields")
+         "|v| <= 10**12; field-order function: <= 12 fields" + BOUND_ADD)
 
 
 def _result(seed, tier, known):
@@ -1814,10 +1931,26 @@ def _result(seed, tier, known):
         "EvaluationError iff the mention graph (own scanner + DFS) has a cycle. "
         f"This run: {stats['spec_cases']} Specs ({stats['spec_acyclic']} acyclic, {stats['spec_cyclic']} with a cycle; {stats['core_spec']} "
         f"from the enumerated cores), {stats['order_calls']} field-order calls ({stats['core_order']} enumerated). "
+        "ADDITIONS. (a) Edit histories: ONE Spec object is built, evaluated, edited in place through attribute / item assignment and deletion "
+        "(spec variables, arch variables, arch-level extra attributes, component extra attributes and fields, action fields and extra "
+        "attributes, spatial fanout: set, add - also shadowing -, delete - also uncovering an outer definition -, make a cycle, undo it) and "
+        "evaluated again by _spec_eval_expressions / calculate_component_costs, for different Einsums in between (arch expressions use "
+        "len(All|Inputs|Outputs|Tensors), whose required value is the number of tensors of the Einsum by construction of the workload), "
+        "optionally continuing on copy.deepcopy / model_copy(deep=True) / the evaluated Spec; after every edit the required values are "
+        "recomputed from the current definitions by the same reference evaluation, EvaluationError iff they now have a cycle, and the "
+        "previous result object must still show its values. (b) Each name the expression evaluator pre-binds (MATH_FUNCS and a registered "
+        "custom function) is used as the name of a user definition in every kind of object and read by compound expressions and bare "
+        "mentions in the same and in all inner and sibling objects; the user's value is required wherever the definition is visible, cycles "
+        f"among such names require EvaluationError. This run: {stats['histories']} histories ({stats['core_histories']} enumerated) with "
+        f"{stats['history_evaluations']} evaluations, {stats['prebound_cases']} Specs with pre-bound names as definitions. "
         "excluded: a definition mentioning its own name while an enclosing object defines that name (reads the outer value by design, e.g. "
         "spec a: 5, arch a: 'a+1' gives 6); component extra attributes mentioning a declared field of their component (they are evaluated "
         "before the fields, so area_scale: 3 with extra w: 'area_scale+1' and spec variable area_scale: 100 gives w = 101, never generated); "
-        "names of built-ins (e, pi, min ...) as variable names; integer literals beyond 2**53 when the known class C21-bigint-literal is open."
+        "a pre-bound name mentioned by its own definition (e: 'e+1' reads the evaluator's e); in-place edits of names starting with '_' "
+        "(pydantic keeps them as plain attributes) and such names among the arch-level extra attributes; on an evaluated Spec: "
+        "calculate_component_costs after an edit and edits of the arch-level extra attributes; integer literals beyond 2**53 when the known "
+        "class C21-bigint-literal is open; the component-level values of an evaluation in the known class C21-arch-extras-cached (a component "
+        "inherits an arch-level extra attribute whose value differs from the one at an earlier evaluation of the same object) when that class is open."
     )
     return {"failed": False, "evaluations": ev, "distinct": distinct, "known_finding_hits": hits, "bound": BOUND, "rule": rule,
             "exhaustive": True, "samples": samples, "stats": stats}
@@ -1840,11 +1973,35 @@ def replay(p):
     return {"failed": False, "tried": r["evaluations"]}
 
 
+def _witness_arch_extras():
+    from accelforge.frontend.spec import Spec
+    from accelforge.frontend.arch import Arch, Memory, Compute
+    act = lambda n: {"name": n, "energy": 1, "throughput": 1}
+    spec = Spec(variables={"a": 1},
+                arch=Arch(variables={"x": "a+10"}, extra_attributes_for_all_component_models={"t": "x+a"},
+                          nodes=[Memory(name="Mem", area="t+1", leak_power=1, size=8, actions=[act("read"), act("write")]),
+                                 Compute(name="MAC", area=1, leak_power=1, actions=[act("compute")])]))
+    try:
+        first = spec._spec_eval_expressions()
+        spec.variables.a = 5
+        second = spec._spec_eval_expressions()
+        got = {"first": {"t": first.arch.extra_attributes_for_all_component_models["t"], "Mem.area": first.arch.find("Mem").area},
+               "second": {"t": second.arch.extra_attributes_for_all_component_models["t"],
+                          "Mem.t": second.arch.find("Mem").extra_attributes_for_component_model["t"],
+                          "Mem.area": second.arch.find("Mem").area}}
+    except Exception as ex:
+        return {"failed": True, "input": WITNESS["C21-arch-extras-cached"], "observed": f"{type(ex).__name__}: {str(ex)[:200]}", "required": "values"}
+    want = {"first": {"t": 12, "Mem.area": 13}, "second": {"t": 20, "Mem.t": 20, "Mem.area": 21}}
+    return {"failed": got != want, "input": WITNESS["C21-arch-extras-cached"], "observed": got, "required": want}
+
+
 def witness(p):
     ent = (p or {}).get("finding") or {}
     cid = ent.get("class_id")
     if cid not in WITNESS:
         return {"failed": False}
+    if cid == "C21-arch-extras-cached":
+        return _witness_arch_extras()
     from accelforge.frontend.spec import Spec
     try:
         ev = Spec(variables={k: v for k, v in WITNESS[cid]["S"]})._spec_eval_expressions()
